@@ -95,14 +95,19 @@ Theorem c19_call :
        if slen outs <? xRets then Fail EIncorrectReturns else Good (lo ++ firstn (Z.to_nat xRets) outs)) /\
   (* non-variadic functions: call = callReady *)
   (forall st ft xArgs xRets, Variadic ft = false -> call st ft xArgs xRets = callReady st ft xArgs xRets) /\
-  (* variadic functions: the surplus arguments become ONE slice of the declared element type *)
-  (forall lo fixed extra ft xRets, Variadic ft = true -> slen fixed = Args ft - 1 ->
+  (* variadic functions, at least one surplus argument: they become ONE slice of the declared element type *)
+  (forall lo fixed extra ft xRets, Variadic ft = true -> slen fixed = Args ft - 1 -> 1 <= slen extra ->
      call (lo ++ fixed ++ extra) ft (slen fixed + slen extra) xRets =
      callReady (lo ++ fixed ++ [pack (Type_value (VariadicType ft)) extra]) ft (Args ft) xRets) /\
+  (* variadic functions, no surplus argument: the variadic parameter is the NIL slice of the declared
+     variadic type (a value without object part; nothing is built) *)
+  (forall lo fixed ft xRets, Variadic ft = true -> slen fixed = Args ft - 1 ->
+     call (lo ++ fixed) ft (slen fixed) xRets =
+     callReady (lo ++ fixed ++ [CVal (mkValue (VariadicType ft) (Zn 0) PNone)]) ft (Args ft) xRets) /\
   (* too few arguments for the fixed part: an error *)
   (forall st ft xArgs xRets, Variadic ft = true -> xArgs < Args ft - 1 -> call st ft xArgs xRets = Fail (ERuntime 2)).
 Proof.
-  exact (conj callReady_args (conj callReady_good (conj call_fixed (conj call_variadic call_variadic_few)))).
+  exact (conj callReady_args (conj callReady_good (conj call_fixed (conj call_variadic (conj call_variadic_none call_variadic_few))))).
 Qed.
 
 (* end to end for natives: script arguments -> callback -> script results *)
@@ -158,11 +163,12 @@ Proof. exact (conj native_frame script_frame). Qed.
 
 (* 5. a bound method is the underlying function with the receiver inserted below the arguments.
    Conjunct 1 (non-variadic underlying function): for EVERY argument list, right or wrong in number.
-   Conjuncts 2, 3 (variadic underlying function with >= 2 parameters): for argument lists that supply at
-   least the fixed parameters (slen fixed = Args f - 2, then any surplus, possibly empty): the method packs
-   the surplus exactly as the function does (one slice of the declared element type).  NOT covered: a
-   variadic method called with FEWER arguments than its fixed parameters (the error case; for plain
-   functions that is c19_call conjunct 5), and a variadic f with Args f = 1 (receiver-only). *)
+   Conjuncts 2, 3, 4 (variadic underlying function with >= 2 parameters): for argument lists that supply at
+   least the fixed parameters (slen fixed = Args f - 2, then any surplus, possibly empty): the method builds
+   the variadic parameter exactly as the function does (conjunct 3, at least one surplus argument: one
+   slice of the declared element type; conjunct 4, none: the nil slice of the declared variadic type).
+   NOT covered: a variadic method called with FEWER arguments than its fixed parameters (the error case;
+   for plain functions that is c19_call conjunct 6), and a variadic f with Args f = 1 (receiver-only). *)
 Theorem c19_method :
   (forall obj f lo args xRets, Variadic f = false -> 1 <= Args f ->
      call (lo ++ args) (newMethod obj f) (slen args) xRets =
@@ -171,9 +177,15 @@ Theorem c19_method :
      call (lo ++ fixed ++ extra) (newMethod obj f) (slen fixed + slen extra) xRets =
      call (lo ++ [obj] ++ fixed ++ extra) f (slen fixed + slen extra + 1) xRets) /\
   (forall obj f lo fixed extra xRets, Variadic f = true -> 2 <= Args f -> slen fixed = Args f - 2 ->
+     1 <= slen extra ->
      call (lo ++ fixed ++ extra) (newMethod obj f) (slen fixed + slen extra) xRets =
-     callReady (lo ++ [obj] ++ fixed ++ [pack (Type_value (VariadicType f)) extra]) f (Args f) xRets).
-Proof. exact (conj method_call (conj method_call_variadic method_call_variadic_packed)). Qed.
+     callReady (lo ++ [obj] ++ fixed ++ [pack (Type_value (VariadicType f)) extra]) f (Args f) xRets) /\
+  (forall obj f lo fixed xRets, Variadic f = true -> 2 <= Args f -> slen fixed = Args f - 2 ->
+     call (lo ++ fixed) (newMethod obj f) (slen fixed) xRets =
+     callReady (lo ++ [obj] ++ fixed ++ [CVal (mkValue (VariadicType f) (Zn 0) PNone)]) f (Args f) xRets).
+Proof.
+  exact (conj method_call (conj method_call_variadic (conj method_call_variadic_packed method_call_variadic_none))).
+Qed.
 
 (* 6. errors surface: raised by the callback itself, raised by the callee of VM.Func, and raised
    inside a script function that a native called through VM.Func (slices.SortFunc's shape).
@@ -217,7 +229,7 @@ Print Assumptions c19_error.
 (* non-vacuity: Int truncates outside int32; a 2-argument native called through VM.Func with two
    requested results out of three; a variadic native; a bound variadic ...float64 method (its
    underlying function answers the receiver and the packed slice): the untyped surplus argument 3
-   arrives as float64 3 *)
+   arrives as float64 3; without surplus argument the variadic parameter is the nil []float64 *)
 Example c19_witness :
   Value_Int (fn_Int 4294967298) = 2 /\ Value_Int (fn_Int (-5)) = -5 /\ Value_Uint (fn_Uint (-1)) = 4294967295 /\
   (let i x := CVal (fn_Int32 x) in
@@ -233,5 +245,7 @@ Example c19_witness :
    let obj := CVal (mkValue TypeStruct (Zn 0) (PRef 1)) in
    let m := mkFuncT 2 2 true (fn_sliceType TypeFloat64) (fun st => Good st) in
    call [u] (newMethod obj m) 1 2 = Good [obj; CPack TypeFloat64 [CVal (fn_Float64 (Zn 3))]] /\
-   call [obj; u] m 2 2 = call [u] (newMethod obj m) 1 2).
+   call [obj; u] m 2 2 = call [u] (newMethod obj m) 1 2 /\
+   call [] (newMethod obj m) 0 2 = Good [obj; CVal (mkValue (fn_sliceType TypeFloat64) (Zn 0) PNone)] /\
+   call [obj] m 1 2 = call [] (newMethod obj m) 0 2).
 Proof. vm_compute. repeat split; reflexivity. Qed.
